@@ -75,6 +75,9 @@ C2QInvertsQ2C ==
         (ImplC2Q[q][1] * ImplQ2C[1].re[p] + ImplC2Q[q][2] * ImplQ2C[1].im[p]
          + ImplC2Q[q][3] * ImplQ2C[2].re[p] + ImplC2Q[q][4] * ImplQ2C[2].im[p]) = (IF p = q THEN 2 ELSE 0)
 C2QOK == ImplC2Q = RefC2Q
+\* c2q is the transpose of q2c (C06: the backward of the quad -> complex step)
+C2QIsQ2CTranspose ==
+    \A q \in Quads : ImplC2Q[q] = <<ImplQ2C[1].re[q], ImplQ2C[1].im[q], ImplQ2C[2].re[q], ImplQ2C[2].im[q]>>
 
 (* ======================= axis layout options (C12) ======================== *)
 \* declarative meaning: a subband is the 6-D tensor with O at position o_dim mod 6, RI at ri_dim mod 6
@@ -251,4 +254,13 @@ Record ==
            [kind |-> "dt2.inv", H |-> call.H, W |-> call.W, J |-> call.J, absent |-> SetSeq(call.absent),
             absLow |-> call.absLow, akind |-> call.kind, outcome |-> outcome, out_r |-> rows, out_c |-> cols, trail |-> trail]
 EmitOK == (pc = "done" /\ Emit) => PrintT(<<"@@REC", ToJson(Record)>>)
+\* the layout table of the options, once (initial state of shard 0)
+OptsRecord == [kind |-> "dt2.opts",
+               pairs |-> SetToSeq({[o_dim |-> p[1], ri_dim |-> p[2], layout |-> RefLayout(p[1], p[2]),
+                                    impl_fwd |-> ImplForwardLayout(p[1], p[2]),
+                                    impl_h6 |-> ImplDims6(p[1], p[2]).h, impl_w6 |-> ImplDims6(p[1], p[2]).w] : p \in OptPairs})]
+EmitOpts == (pc = "idle" /\ Emit /\ Shard = 0) => PrintT(<<"@@REC", ToJson(OptsRecord)>>)
+\* C12: the first j levels of a J-level pyramid are the j-level pyramid
+PrefixOK == (pc = "done" /\ call.api = "fwd") =>
+               \A j \in 1 .. call.J : SubSeq(trail, 1, j) = RefTrail(call.H, call.W, 1, j)
 =============================================================================
